@@ -49,9 +49,9 @@ def ladder(m: core.Mod, qual: str) -> list[tuple[str, str, dict[str, str] | str]
         if sk:
             args: dict[str, str] | str = "**" + nun(sk[0])
         else:
-            if ret.args:
-                raise core.Unsupported(f"{qual}: positional arguments in `{un(ret)[:60]}`")
             args = {k: nun(v) for k, v in core.kw(ret).items()}
+            for i_, a_ in enumerate(ret.args):
+                args[f"<positional {i_}>"] = nun(a_)
         out.append((klass, nun(ret.func), args))
     _ = dp
     return out
